@@ -36,6 +36,7 @@ LN2 = math.log(2.0)
 CLIFF1 = ["Hadamard", "S", "PauliX", "PauliY", "PauliZ", "Hadamard", "S"]
 CLIFF2 = ["CNOT", "CZ", "SWAP", "CNOT"]
 IFACES = ["numpy", "autograd", "jax", "torch"]
+NOJAX = ["numpy", "autograd", "torch"]
 QM = qp.math
 
 
@@ -73,9 +74,9 @@ def wires_of(m, n):
 
 
 def _clifford(rng, n, L):
-    ops = [rec("Hadamard", [w]) for w in range(1, n + 1) if rng.random() < 0.6]
+    ops = [rec("Hadamard", [w]) for w in range(1, n + 1) if rng.random() < 0.7]
     for _ in range(L):
-        if n >= 2 and rng.random() < 0.55:
+        if n >= 2 and rng.random() < 0.6:
             ops.append(rec(rng.choice(CLIFF2), rng.sample(range(1, n + 1), 2)))
         else:
             ops.append(rec(rng.choice(CLIFF1), [rng.randint(1, n)]))
@@ -168,9 +169,17 @@ def gen_cases(tier, seed, M):
         wa, wb, wk = WEIGHTS[i % len(WEIGHTS)]
         cases.append({"kind": "circ", "n": n, "a": a, "b": b, "wa": wa, "wb": wb, "wk": wk, "stab": 0,
                       "subs": _subs(rng, n, common[n]), "mi": []})
+    H, CX, CZ = (lambda w: rec("Hadamard", [w])), (lambda c, t: rec("CNOT", [c, t])), (lambda c, t: rec("CZ", [c, t]))
+    special = [(4, [H(1), CX(1, 2), CX(2, 3), CX(3, 4)]),                                   # GHZ
+               (4, [H(1), H(2), H(3), H(4), CZ(1, 2), CZ(2, 3), CZ(3, 4)]),                # linear cluster
+               (4, [H(1), H(2), CX(1, 3), CX(2, 4), rec("S", [3])]),                       # two Bell pairs across the cut {1,2}|{3,4}
+               (3, [H(1), CX(1, 2), CX(1, 3), rec("SWAP", [1, 3]), rec("PauliY", [2])]),
+               (2, [H(1), CX(1, 2)])]
     for i in range(nstab):
         n = rng.choice(ns + [4])
-        a = _clifford(rng, n, rng.randint(n, 3 * n + 2))
+        a = _clifford(rng, n, rng.randint(2 * n - 1, 3 * n + 2))
+        if i < len(special):
+            n, a = special[i]
         b = _clifford(rng, n, rng.randint(0, 2 * n))
         cases.append({"kind": "circ", "n": n, "a": a, "b": b, "wa": 1, "wb": 0, "wk": 0, "stab": 1,
                       "subs": _subs(rng, n, common[n]), "mi": _disjoint_pairs(rng, n, 3)})
@@ -273,7 +282,8 @@ class Ctx:
             bool(np.all(np.where(np.isfinite(exp), True, got == exp)))
         if not ok:
             err = float(np.max(np.abs(got - exp))) if got.shape == exp.shape and np.all(np.isfinite(got)) and np.all(np.isfinite(exp)) else -1.0
-            self.add(f"{fn}:{iface}:{tag}", f"{fn} [{iface}] differs from the exact definition (max err {err:.3g}, shapes {got.shape} vs {exp.shape})",
+            small = f"; got {got.tolist()!r}, expected {exp.tolist()!r}" if got.size <= 8 and exp.size <= 8 else ""
+            self.add(f"{fn}:{iface}:{tag}", f"{fn} [{iface}] differs from the exact definition (max err {err:.3g}, shapes {got.shape} vs {exp.shape}{small})",
                      {**replay, "expected": repr(exp.tolist()), "got": repr(got.tolist())})
         return ok
 
@@ -568,7 +578,7 @@ def eval_expand(ctx, group, ifaces):
     ctx.cmp("expand_matrix", "scipy", tag, g, e, rep)
 
 
-def eval_batched(ctx, cases, outs, common, ifaces):
+def eval_batched(ctx, cases, outs, common, ifaces, jax_n=(2, 3)):
     """Batch dimension: stack the exact states of the circuits with the same number of wires."""
     nb = 0
     for n, subs in common.items():
@@ -582,6 +592,8 @@ def eval_batched(ctx, cases, outs, common, ifaces):
         PB = np.einsum("bi,bj->bij", B, B.conj())
         rep0 = {"batch_of_cases": [cases[i] for i in idxs]}
         for iface in ifaces:
+            if iface == "jax" and n not in jax_n:
+                continue
             a_, b_, r_, pa_, pb_ = (to_if(x, iface) for x in (A, B, R, PA, PB))
             for S in subs:
                 j = [cases[i]["subs"].index(S) for i in idxs]
@@ -623,6 +635,8 @@ def eval_batched(ctx, cases, outs, common, ifaces):
             R = np.stack([ctx.mat(outs[i]["rho"]) for i in sidx])
             rep0 = {"batch_of_cases": [cases[i] for i in sidx]}
             for iface in ifaces:
+                if iface == "jax" and n not in jax_n:
+                    continue
                 r_ = to_if(R, iface)
                 for m in range(1, 1 << n):
                     ws = wires_of(m, n)
@@ -713,23 +727,24 @@ def run(tier, seed):
         if o["skip"]:
             continue
         if c["kind"] == "circ":
-            ifs = IFACES if ci % 4 == 0 else ["numpy"] if quick else ["numpy", IFACES[1 + ci % 3]]
+            # jax compiles every new (function, shape, index list): keep it to a subset of the cases in the quick tier
+            ifs = (IFACES if ci % (16 if quick else 8) == 0 else NOJAX) if ci % 4 == 0 else ["numpy"] if quick else ["numpy", NOJAX[1 + ci % 2]]
             eval_circ(ctx, c, o, ifs, ci)
             counts["stab" if c["stab"] else "circ"] += 1
         elif c["kind"] == "diag":
-            ifs = IFACES if ci % 10 == 0 else ["numpy"]
+            ifs = (IFACES if ci % 40 == 0 else NOJAX) if ci % 10 == 0 else ["numpy"]
             eval_diag(ctx, c, o, ifs, ci, rng)
             counts["diag"] += 1
         else:
             groups.setdefault((c["n"], tuple(c["ws"])), []).append((c, o))
             counts["expand"] += 1
     for gi, (key, grp) in enumerate(sorted(groups.items())):
-        eval_expand(ctx, grp, IFACES if gi % 3 == 0 else ["numpy", IFACES[1 + gi % 3]])
-    nbatched = eval_batched(ctx, cases, outs, common, IFACES)
+        eval_expand(ctx, grp, (IFACES if gi % 9 == 0 else NOJAX) if gi % 3 == 0 else ["numpy", NOJAX[1 + gi % 2]])
+    nbatched = eval_batched(ctx, cases, outs, common, IFACES, jax_n=(2, 3) if quick else (1, 2, 3, 4, 5))
     nrandom = random_states_bounds(ctx, rng, tier)
     # vacuity
     stab_ent = [e for c, o in zip(cases, outs) if c["kind"] == "circ" and c["stab"] and not o["skip"] for e in o["ent"]]
-    if counts["stab"] < 20 or sum(1 for e in stab_ent if e >= 1) < 50 or sum(1 for e in stab_ent if e >= 2) < 5:
+    if counts["stab"] < 20 or sum(1 for e in stab_ent if e >= 1) < 50 or sum(1 for e in stab_ent if e >= 2) < 3:
         raise MachineryError("vacuity: too few entangled stabiliser subsets")
     mixed = sum(1 for c, o in zip(cases, outs) if c["kind"] == "circ" and c["wb"] and not o["skip"])
     if mixed < 20 or counts["expand"] < 50 or counts["diag"] < 100:
